@@ -1,7 +1,132 @@
-(* Props/C04.v -- placeholder, filled below *)
-From PraatIO Require Import IO.IoModel.
-Theorem C04_blanks_off_only_sorts minT maxT thr t :
-  d_isint t = false \/ True ->
+(* Props/C04.v -- Saving adds only blanks and absorbs only sub-threshold slivers.
+   Property theorems only; proofs are in IO/PrepProofs.v. *)
+From Coq Require Import Lia.
+From PraatIO Require Import IO.PrepSpec IO.PrepProofs.
+Open Scope Z_scope.
+
+(* Blank filling of a well-formed interval tier over the requested span [minT,maxT]
+   succeeds, yields an ascending gap-free overlap-free partition of exactly that span,
+   keeps every entry, keeps the labelled entries verbatim and in order, and adds
+   nothing but empty-labelled intervals. *)
+Theorem C04_fill_adds_only_blanks minT maxT l :
+  chain minT l maxT -> (l <> [] \/ minT < maxT) ->
+  exists l', fill_blanks minT maxT l = Ok l'
+    /\ partitionb minT l' = Some maxT
+    /\ labelled l' = labelled l
+    /\ (forall x, In x l -> In x l')
+    /\ (forall x, In x l' -> In x l \/ is_blank x = true).
+Proof.
+  intros C NE. exists (fill_spec minT l maxT). split; [exact (fill_blanks_spec _ _ _ C NE)|].
+  split; [exact (fill_spec_partition _ _ _ C)|]. split; [exact (fill_spec_labelled _ _ _)|].
+  split; [intros x; exact (fill_spec_keeps _ _ _ x)|intros x; exact (fill_spec_only_blanks _ _ _ x)].
+Qed.
+Print Assumptions C04_fill_adds_only_blanks.
+
+(* Sliver absorption on a partition in which at least one interval reaches the threshold:
+   the output is again a partition of the same span, no written interval is shorter than
+   the threshold, and the written labels are exactly the labels of the intervals at least
+   that long, in order. *)
+Theorem C04_absorbs_only_slivers thr minT l hi :
+  0 < snd thr -> partitionb minT l = Some hi -> existsb (long thr) l = true ->
+  partitionb minT (remove_ultrashort thr minT l) = Some hi
+  /\ forallb (long thr) (remove_ultrashort thr minT l) = true
+  /\ map dl (remove_ultrashort thr minT l) = map dl (filter (long thr) l).
+Proof. intros H. exact (ultra_partition thr H minT l hi). Qed.
+Print Assumptions C04_absorbs_only_slivers.
+
+(* Boundaries unchanged unless a sliver next to the interval was absorbed. *)
+Theorem C04_boundaries_unchanged_without_adjacent_sliver thr minT l hi l1 e l2 :
+  0 < snd thr -> partitionb minT l = Some hi -> l = l1 ++ e :: l2 -> long thr e = true ->
+  match last_opt l1 with Some a => long thr a = true | None => True end ->
+  match l2 with b :: _ => long thr b = true | [] => True end ->
+  In e (remove_ultrashort thr minT l).
+Proof. intros H. exact (ultra_verbatim thr H minT l hi l1 e l2). Qed.
+Print Assumptions C04_boundaries_unchanged_without_adjacent_sliver.
+
+(* The whole preparation of one interval tier with blank filling on. *)
+Theorem C04_prep_tier minT maxT thr t :
+  d_isint t = true -> chain minT (d_ents t) maxT -> (d_ents t <> [] \/ minT < maxT) ->
+  match thr with Some th => 0 < snd th /\ existsb (long th) (fill_spec minT (d_ents t) maxT) = true | None => True end ->
+  prep_tier true minT maxT thr t =
+    Ok (mkDT true (d_name t) (d_xmin t) (d_xmax t)
+             (match thr with
+              | Some th => remove_ultrashort th minT (fill_spec minT (d_ents t) maxT)
+              | None => fill_spec minT (d_ents t) maxT end)).
+Proof. exact (prep_tier_blanks minT maxT thr t). Qed.
+Print Assumptions C04_prep_tier.
+
+(* Threshold disabled: nothing is absorbed (the output is the blank-filled tier) and every
+   written interval has positive length. *)
+Theorem C04_no_threshold minT maxT t :
+  d_isint t = true -> chain minT (d_ents t) maxT -> (d_ents t <> [] \/ minT < maxT) ->
+  exists t', prep_tier true minT maxT None t = Ok t'
+    /\ d_ents t' = fill_spec minT (d_ents t) maxT
+    /\ Forall (fun e => 0 < dlen e) (d_ents t').
+Proof.
+  intros HI C NE. eexists. split; [exact (prep_tier_blanks minT maxT None t HI C NE I)|].
+  split; [reflexivity|]. simpl. exact (partition_positive _ _ _ (fill_spec_partition _ _ _ C)).
+Qed.
+Print Assumptions C04_no_threshold.
+
+(* Blank filling off: entries are only put in order, nothing is added or absorbed. *)
+Theorem C04_blanks_off_verbatim minT maxT thr t :
   prep_tier false minT maxT thr t = Ok (mkDT (d_isint t) (d_name t) (d_xmin t) (d_xmax t) (dsort (d_ents t))).
-Proof. intros _. reflexivity. Qed.
-Print Assumptions C04_blanks_off_only_sorts.
+Proof. reflexivity. Qed.
+Print Assumptions C04_blanks_off_verbatim.
+
+(* An entry outside a requested minTimestamp / maxTimestamp: the save raises, whatever
+   the tier kind and the blank-filling flag. *)
+Theorem C04_override_outside_raises blanks mn mx thr g :
+  outside_override mn mx g = true -> prep_tg blanks mn mx thr g = Err ParsingError.
+Proof. intro H. unfold prep_tg. rewrite H. reflexivity. Qed.
+Print Assumptions C04_override_outside_raises.
+
+Theorem C04_outside_override_iff mn mx g :
+  outside_override mn mx g = true <->
+  exists t e, In t (dg_tiers g) /\ In e (d_ents t) /\
+    ((exists a, mn = Some a /\ ds e < a) \/ (exists b, mx = Some b /\ b < de e)).
+Proof.
+  unfold outside_override. rewrite existsb_exists. split.
+  - intros (t & Ht & H). apply existsb_exists in H as (e & He & H). exists t, e. repeat split; auto.
+    apply Bool.orb_true_iff in H as [H|H]; [left|right].
+    + destruct mn as [a|]; [exists a; split; [reflexivity|lia]|discriminate].
+    + destruct mx as [b|]; [exists b; split; [reflexivity|lia]|discriminate].
+  - intros (t & e & Ht & He & H). exists t. split; [exact Ht|]. apply existsb_exists. exists e. split; [exact He|].
+    apply Bool.orb_true_iff. destruct H as [(a & -> & H)|(b & -> & H)]; [left|right]; lia.
+Qed.
+Print Assumptions C04_outside_override_iff.
+
+(* A successful save carries the override as the file's span. *)
+Theorem C04_override_becomes_span blanks mn mx thr g g' :
+  prep_tg blanks mn mx thr g = Ok g' ->
+  dg_xmin g' = match mn with Some a => a | None => dg_xmin g end
+  /\ dg_xmax g' = match mx with Some b => b | None => dg_xmax g end.
+Proof.
+  unfold prep_tg. destruct (outside_override mn mx g); [discriminate|].
+  match goal with |- context [bind ?X _] => destruct X end; simpl; [|discriminate].
+  intros [= <-]. split; reflexivity.
+Qed.
+Print Assumptions C04_override_becomes_span.
+
+(* Blank filling itself refuses entries outside the span it is asked to fill. *)
+Theorem C04_fill_refuses_outside_low minT maxT e0 rest :
+  ds e0 < minT -> fill_blanks minT maxT (e0 :: rest) = Err ParsingError.
+Proof. exact (fill_blanks_raises_low minT maxT e0 rest). Qed.
+Print Assumptions C04_fill_refuses_outside_low.
+
+(* The recorded finding F19: when every interval of the blank-filled tier is below the
+   threshold the tier is written with no intervals, which is not a partition of the span. *)
+Theorem C04_all_short_refuted :
+  exists thr minT hi l, 0 < snd thr /\ partitionb minT l = Some hi /\ minT < hi
+    /\ partitionb minT (remove_ultrashort thr minT l) <> Some hi.
+Proof. exists (3, 1), 0, 1, [DI 0 1 [97%N]]. vm_compute. repeat split; discriminate. Qed.
+Print Assumptions C04_all_short_refuted.
+
+(* non-vacuity: a tier with a gap, a sliver and ordinary intervals meets the hypotheses *)
+Example C04_hypotheses_satisfiable :
+  chain 0 [DI 2 5 [97%N]; DI 5 6 [98%N]; DI 9 20 [99%N]] 30
+  /\ partitionb 0 (fill_spec 0 [DI 2 5 [97%N]; DI 5 6 [98%N]; DI 9 20 [99%N]] 30) = Some 30
+  /\ existsb (long (2, 1)) (fill_spec 0 [DI 2 5 [97%N]; DI 5 6 [98%N]; DI 9 20 [99%N]] 30) = true
+  /\ remove_ultrashort (2, 1) 0 (fill_spec 0 [DI 2 5 [97%N]; DI 5 6 [98%N]; DI 9 20 [99%N]] 30)
+     = [DI 0 2 []; DI 2 6 [97%N]; DI 6 9 []; DI 9 20 [99%N]; DI 20 30 []].
+Proof. simpl. repeat split; try lia; reflexivity. Qed.
